@@ -1,6 +1,7 @@
 import Driver.Proto
 import Driver.Select
 import Driver.Multi
+import Driver.Grid
 /-!
 # Model driver: one JSON request per line on stdin → one canonical JSON answer per line on stdout.
 -/
@@ -69,6 +70,7 @@ def handle (line : String) : String :=
       if op.startsWith "var." || op.startsWith "decl." then handleVars op j
       else if op.startsWith "task." then handleTask op j
       else if op.startsWith "multi." then handleMulti op j
+      else if op.startsWith "grid." || op.startsWith "tuner." then handleGrid op j
       else if op.startsWith "sel." then handleSel op j
       else if op.startsWith "loop." then handleLoop op j
       else err s!"unknown op {op}"
